@@ -18,6 +18,7 @@ import numpy as np
 
 from .. import disthist as dh
 from .. import tlc
+from ..core import scribble
 
 
 def aes_part(chk, rng):
@@ -55,12 +56,15 @@ def aes_part(chk, rng):
             for b in range(0, total + 1):
                 out = scared.aes.key_expansion(window.copy(), col_in=a, col_out=b)
                 recorded.append({'k': ki + 1, 'a': a, 'b': b, 'out': [int(x) for x in np.asarray(out).reshape(-1)], 'what': 'key_expansion'})
+                scribble(out)
         ks = np.asarray(scared.aes.key_schedule(np.array(key, dtype='uint8')))
         recorded.append({'k': ki + 1, 'a': 0, 'b': total, 'out': [int(x) for x in ks.reshape(-1)], 'what': 'key_schedule', 'shape': list(ks.shape)})
+        scribble(ks)
         if nk == 4:
             for rin in range(11):
                 inv = np.asarray(scared.aes.inv_key_schedule(flat[4 * rin:4 * rin + 4].reshape(-1), round_in=rin))
                 recorded.append({'k': ki + 1, 'a': 0, 'b': total, 'out': [int(x) for x in inv.reshape(-1)], 'what': f'inv_key_schedule(round_in={rin})'})
+                scribble(inv)
     # key batches: several keys at once must give each key's own window
     for n in (16, 24, 32):
         idx = [i for i, k in enumerate(keys) if len(k) == n][:3]
@@ -125,6 +129,7 @@ def des_part(chk, rng):
             if got.shape != (i + 1, 8) or got.tolist() != rk[ki][:i + 1]:
                 chk.violation('des.key_schedule:equals PC-1 / shifts / PC-2 for every round', {'property': 'C10', 'part': 'des', 'key': key, 'interrupt_after_round': i, 'got': got.tolist(), 'expected': rk[ki][:i + 1]},
                               f'des.key_schedule({key}, interrupt_after_round={i})')
+            scribble(got)
         chk.traces_validated += 1
     batch = np.array(keys[3:9], dtype='uint8')
     gb = np.asarray(scared.des.key_schedule(batch))
